@@ -198,6 +198,20 @@ func (w *world) step(op string) (status string) {
 		}
 		w.ts = append(w.ts, v.(*tensor.Dense))
 		return fmt.Sprintf("new:%d", len(w.ts)-1)
+	case "narrow":
+		// narrow:<t>:<dim>:<start>:<len>:<api|method> — tensor.Narrow / Dense.Narrow
+		var v tensor.View
+		var err error
+		if f[5] == "api" {
+			v, err = tensor.Narrow(T(1), atoi(f[2]), atoi(f[3]), atoi(f[4]))
+		} else {
+			v, err = T(1).Narrow(atoi(f[2]), atoi(f[3]), atoi(f[4]))
+		}
+		if err != nil {
+			return "err"
+		}
+		w.ts = append(w.ts, v.(*tensor.Dense))
+		return fmt.Sprintf("new:%d", len(w.ts)-1)
 	case "T":
 		axes := ints(f[2])
 		if w.keep && len(axes) > 0 {
